@@ -127,6 +127,11 @@ C05_Lookup(G, obs) ==
           LET M == {t \in Members(G.ch, w) : IdOf[t] = obs.ids[k]}
           IN  IF M = {} THEN obs.lookup[w][k] = 0 ELSE obs.lookup[w][k] \in M
     /\ \A w \in Wbs : obs.tasks[w] = TasksOf(G.ch, w)
+    (* every member exactly once *)
+    /\ \A w \in Wbs : /\ \A i, j \in DOMAIN obs.tasks[w] : obs.tasks[w][i] = obs.tasks[w][j] => i = j
+                      /\ Ran(obs.tasks[w]) = Members(G.ch, w)
+    (* lookup is exact: the ids of the universes are integers, their text is nobody's id *)
+    /\ \A w \in Wbs : \A k \in DOMAIN obs.strlookup[w] : obs.strlookup[w][k] = 0
 
 (* C11 -- Task.wbs tells the truth *)
 C11_Owner(G) == \A t \in Task : G.own[t] = OwnOf(G.ch, t)
@@ -195,8 +200,13 @@ EffMove(c, n, ts0, before, after) ==
                        [c EXCEPT !.ch[n] = InsSeqAt(rest, k, Rev(ts))]}
         ELSE {}
 
-KeyOf(key, t) == IF key = 1 THEN Prio[t] ELSE IdOf[t]
+(* key 1 = the attribute "prio", key 2 = the id, key 3 = the attribute "mix": the value of prio, except    *)
+(* that tasks with prio 0 carry None there, which cannot be compared: sorting two or more tasks of which   *)
+(* one has no comparable key is rejected (and, C15, must then leave the order alone)                       *)
+KeyOf(key, t) == IF key = 2 THEN IdOf[t] ELSE Prio[t]
+Incomparable(key, t) == key = 3 /\ Prio[t] = 0
 EffSort(c, n, key, rev) ==
+    IF Len(c.ch[n]) >= 2 /\ \E t \in Ran(c.ch[n]) : Incomparable(key, t) THEN {} ELSE
     LET cur == c.ch[n]
         Asc(s)  == \A i, j \in DOMAIN s : i < j => KeyOf(key, s[i]) <= KeyOf(key, s[j])
         Desc(s) == \A i, j \in DOMAIN s : i < j => KeyOf(key, s[i]) >= KeyOf(key, s[j])
@@ -240,6 +250,17 @@ ListObj(c, m, kind) ==
 (* task a.t) to which the given relations are applied in the constructor's order                         *)
 Bind(S, F(_)) == UNION {F(x) : x \in S}
 Isolated(c, t) == Holders(c.ch, t) = {} /\ c.ch[t] = <<>> /\ c.pre[t] = {} /\ \A x \in Task : t \notin c.pre[x]
+(* bulk assignment through a task-list facade (lst.parent = p, lst.predecessors = ts): applied to the     *)
+(* listed tasks one after the other, every step validated like the single call                            *)
+RECURSIVE BulkParentFold(_, _, _)
+BulkParentFold(S, ts, p) ==
+    IF ts = <<>> \/ S = {} THEN S
+    ELSE BulkParentFold({y \in Bind(S, LAMBDA x : EffSetParent(x, Head(ts), p)) : InvCore(y)}, Tail(ts), p)
+RECURSIVE BulkPredsFold(_, _, _)
+BulkPredsFold(S, ts, P) ==
+    IF ts = <<>> \/ S = {} THEN S
+    ELSE BulkPredsFold({y \in Bind(S, LAMBDA x : EffSetPreds(x, Head(ts), P)) : InvCore(y)}, Tail(ts), P)
+
 EffNew(c, a) ==
     IF ~Isolated(c, a.t) THEN {}
     ELSE LET s1 == IF a.n # 0 THEN {Attach(c, a.n, a.t)} ELSE {c}
@@ -277,6 +298,8 @@ Effects(c, a) ==
       [] a.name = "ListLShift"     -> {FoldPreds(c, c.ch[a.n], Ran(a.seq), FALSE)}
       [] a.name = "ListRShift"     -> {FoldPreds(c, c.ch[a.n], Ran(a.seq), TRUE)}
       [] a.name = "WbsRemove"      -> EffWbsRemove(c, a.n - N, a.t)
+      [] a.name = "BulkParent"     -> BulkParentFold({c}, c.ch[a.n], a.t)
+      [] a.name = "BulkPreds"      -> BulkPredsFold({c}, c.ch[a.n], Ran(a.seq))
       [] OTHER                     -> {}
 
 (* value returned by a returning call, where the API documents one; -1 = unspecified *)
@@ -299,8 +322,9 @@ Incoming(c, a) ==
       [] a.name \in {"ChAppend", "ChInsert", "SetChildrenOne"} -> {a.t}
       [] a.name \in {"SetChildren", "FloorDiv"}   -> Ran(a.seq) \cap Task
       [] a.name = "SetChildrenFrom"               -> Ran(ListObj(c, a.t, a.key))
+      [] a.name = "BulkParent"                    -> IF a.t = 0 THEN {} ELSE Ran(c.ch[a.n])
       [] OTHER -> {}
-TargetNode(a) == a.n
+TargetNode(a) == IF a.name = "BulkParent" THEN a.t ELSE a.n
 CrossWbs(c, a) ==
     LET X == Incoming(c, a)
     IN  X # {} /\ \E x \in X : OwnOf(c.ch, x) # 0 /\ OwnOf(c.ch, x) # OwnOfNode(c.ch, TargetNode(a))
